@@ -1,0 +1,33 @@
+//go:build verif
+
+// Copyright 2026 The Scriggo Authors. All rights reserved.
+// Use of this source code is governed by a BSD-style
+// license that can be found in the LICENSE file.
+
+// Package c28 is a verification bridge (build tag "verif") that exposes the
+// parsers of internal/compiler to the external correspondence harness of
+// property C28. It adds no behaviour.
+package c28
+
+import (
+	"io/fs"
+
+	"github.com/open2b/scriggo/ast"
+	"github.com/open2b/scriggo/internal/compiler"
+)
+
+// ParseProgram calls compiler.ParseProgram.
+func ParseProgram(fsys fs.FS) (*ast.Tree, error) {
+	return compiler.VerifC28ParseProgram(fsys)
+}
+
+// ParseTemplate calls compiler.ParseTemplate without a transformer.
+func ParseTemplate(fsys fs.FS, name string, noParseShow bool) (*ast.Tree, error) {
+	return compiler.VerifC28ParseTemplate(fsys, name, noParseShow)
+}
+
+// ParseTemplateSource calls compiler.ParseTemplateSource and returns the
+// unexpanded tree.
+func ParseTemplateSource(src []byte, format ast.Format, imported, noParseShow bool) (*ast.Tree, error) {
+	return compiler.VerifC28ParseTemplateSource(src, format, imported, noParseShow)
+}
